@@ -58,9 +58,21 @@ class SymArray(np.ndarray):
     def real(self):
         return _PartView(self, 're')
 
+    @real.setter
+    def real(self, value):
+        if isinstance(value, _PartView) and value.arr is self and value.which == 're':
+            return                      # `a.real *= k`: already written through
+        _PartView(self, 're')[...] = value
+
     @property
     def imag(self):
         return _PartView(self, 'im')
+
+    @imag.setter
+    def imag(self, value):
+        if isinstance(value, _PartView) and value.arr is self and value.which == 'im':
+            return                      # `a.imag *= k`: already written through
+        _PartView(self, 'im')[...] = value
 
     def conj(self):
         return _map1(lambda x: x.conjugate() if hasattr(x, 'conjugate') else x, self)
@@ -139,7 +151,11 @@ class _PartView:
         return iter(self._get())
 
     def __imul__(self, o):
-        raise SymError("in-place op on part view without index")
+        # numpy: `a.imag *= k` multiplies the part of `a` in place (a view) and then
+        # re-assigns it; when `a` is a temporary copy (fancy/boolean indexing) the
+        # effect is lost with it - exactly as in numpy
+        self[...] = self._get() * o
+        return self
 
     def __getattr__(self, name):
         return getattr(self._get(), name)
